@@ -659,8 +659,11 @@ pub fn run_c19(ctx: &Ctx) -> Report {
         };
         let mut nvar = rng.range(1, 12) as usize;
         let hashed = k < special.len() || rng.chance(1, 2);
-        if hashed && independent_start(&name).0 > u32::MAX - 16 {
-            nvar = 1; // later codes would not fit a u32: outside the property
+        if hashed && independent_start(&name).0 > u32::MAX - 40 {
+            // as many variants as fit: the last code is exactly u32::MAX (or one below); more would not fit a u32
+            let room = (u32::MAX - independent_start(&name).0) as usize + 1;
+            nvar = if rng.chance(1, 3) && room > 1 { room - 1 } else { room };
+            rep.count("gen:last-code-at-u32-max");
         }
         let mut decl: Vec<(String, Option<u64>, Option<String>)> = Vec::new();
         let mut src = String::new();
@@ -673,7 +676,8 @@ pub fn run_c19(ctx: &Ctx) -> Report {
                 _ => format!("V{}", i),
             };
             let msg = if rng.chance(1, 8) { None } else { Some(gen_text(&mut rng, false)) };
-            let disc = if !hashed && rng.chance(1, 5) { Some(rng.below(1000) + 1000 * i as u64) } else { None };
+            // (with a hashed start an explicit discriminant left on the first variant is overridden)
+            let disc = if !hashed && rng.chance(1, 5) { Some(rng.below(1000) + 1000 * i as u64) } else if hashed && i == 0 && rng.chance(1, 6) { Some(rng.below(3)) } else { None };
             if rng.chance(1, 6) {
                 src.push_str("    /// a doc comment\n    #[allow(dead_code)]\n");
             }
